@@ -325,7 +325,7 @@ func (s *Server) doUpdateOrReplace(ctx context.Context, prefix *gnmi.Path, u *gn
 	jsonVal := u.GetVal().GetJsonVal()
 	if jsonVal != nil {
 		log.Debugf("Processing Json Value in set from base %s: %s", path, string(jsonVal))
-		pathValues, err := target.plugin.GetPathValues(ctx, prefixPath, jsonVal)
+		pathValues, err := target.plugin.GetPathValues(ctx, jsonBasePath(path), jsonVal)
 		if err != nil {
 			return err
 		}
@@ -353,6 +353,14 @@ func (s *Server) doUpdateOrReplace(ctx context.Context, prefix *gnmi.Path, u *gn
 	}
 
 	return nil
+}
+
+// jsonBasePath is the path a JSON value is rooted at: the effective (prefix + update) path without a trailing slash
+func jsonBasePath(path string) string {
+	if len(path) > 1 && strings.HasSuffix(path, "/") {
+		return path[:len(path)-1]
+	}
+	return path
 }
 
 func (s *Server) doDelete(prefix *gnmi.Path, gnmiPath *gnmi.Path, target *targetInfo) error {
